@@ -29,13 +29,13 @@ SHAPES = [
     ("y|yZ", "start: y | y X\ny: Y"),
     ("nested?", "start: x? Y\nx: X x | X"),
 ]
-IGNORES = [None, '" "', "/x+/"]
+IGNORES = [None, '" "', "/x+/", ('" "', "/x+/"), ("/x+/", '" "')]  # a pair = two %ignore directives
 
 
 def cfgp():
     if TIER == "thorough":
         return dict(terms=TERMS_T, charlen=4, bytelen=5, ignores=IGNORES)
-    return dict(terms=TERMS_Q, charlen=3, bytelen=4, ignores=IGNORES[:2])
+    return dict(terms=TERMS_Q, charlen=3, bytelen=4, ignores=IGNORES[:2] + IGNORES[3:])
 
 
 def init_worker(tier):
@@ -62,8 +62,16 @@ def grammars():
                         continue
                     if ign is not None and not sharp_pair and sname != "XY":
                         continue
-                src = shape + f"\nX: {x}\n" + (f"Y: {y}\n" if "Y" in shape else "") + (f"IGN: {ign}\n%ignore IGN\n" if ign else "")
-                chars = "".join(sorted(set(cx + (cy if "Y" in shape else "") + (" " if ign == '" "' else "x" if ign else ""))))
+                if isinstance(ign, tuple):
+                    if TIER != "thorough" and not (sharp_pair and sname in ("XY", "X|Y", "X*")):
+                        continue
+                    igsrc = f"IGN: {ign[0]}\nIGB: {ign[1]}\n%ignore IGN\n%ignore IGB\n"
+                    igchars = " x"
+                else:
+                    igsrc = f"IGN: {ign}\n%ignore IGN\n" if ign else ""
+                    igchars = " " if ign == '" "' else "x" if ign else ""
+                src = shape + f"\nX: {x}\n" + (f"Y: {y}\n" if "Y" in shape else "") + igsrc
+                chars = "".join(sorted(set(cx + (cy if "Y" in shape else "") + igchars)))
                 out.append({"src": src, "chars": chars, "shape": sname})
                 if sname == "XY":
                     # configurations of the same grammar: terminal names that are prefixes of each other with a
